@@ -59,6 +59,36 @@ func is64(t string) bool {
 	return t == "int64" || t == "uint64" || t == "sint64" || t == "fixed64" || t == "sfixed64"
 }
 
+// c03BigDefaults: integer defaults at the edges of their types and just above 2^53 / 2^24, each paired with a
+// neighbour that differs by one — different values that any comparison through a narrower type conflates.
+func c03BigDefaults(typ string) [][2]string {
+	switch typ {
+	case "int64", "sint64", "sfixed64":
+		return [][2]string{{"9007199254740993", "9007199254740992"}, {"9223372036854775807", "9223372036854775806"},
+			{"-9223372036854775808", "-9223372036854775807"}, {"-9007199254740993", "-9007199254740992"}}
+	case "uint64", "fixed64":
+		return [][2]string{{"18446744073709551615", "18446744073709551614"}, {"9007199254740993", "9007199254740992"},
+			{"9223372036854775808", "9223372036854775807"}}
+	case "int32", "sint32", "sfixed32":
+		return [][2]string{{"2147483647", "2147483646"}, {"-2147483648", "-2147483647"}, {"16777217", "16777216"}}
+	case "uint32", "fixed32":
+		return [][2]string{{"4294967295", "4294967294"}, {"16777217", "16777216"}, {"2147483648", "2147483647"}}
+	}
+	return nil
+}
+
+func c03DefaultNeighbour(typ, cur string) string {
+	for _, p := range c03BigDefaults(typ) {
+		if p[0] == cur {
+			return p[1]
+		}
+		if p[1] == cur {
+			return p[0]
+		}
+	}
+	return ""
+}
+
 func isZeroDefault(typ, v string) bool {
 	switch v {
 	case "", `""`, "0", "-0", "false", "0.0":
@@ -355,6 +385,9 @@ func init() {
 			}
 			return "2.5"
 		default:
+			if nb := c03DefaultNeighbour(fl.Type, cur); nb != "" {
+				return nb
+			}
 			if cur == "77" {
 				return "78"
 			}
@@ -370,6 +403,17 @@ func init() {
 			}
 			e.Tag = fl.Kind + ":" + fl.Type
 			fl.Default = nd
+			return fieldExp([]string{"FIELD_SAME_DEFAULT"}, m, fl)
+		})
+	// a default at the edge of its type moved by one (a comparison through float64 / a narrower int conflates them)
+	c03Reg("field-default-neighbour", []string{"FIELD_SAME_DEFAULT"},
+		fieldSites(func(f c03Field) bool {
+			return canDefault(f) && f.F.Kind == "scalar" && c03DefaultNeighbour(f.F.Type, f.F.Default) != ""
+		}),
+		func(e *c03Env, st c03Site) []c03Expect {
+			m, fl := get(e, st)
+			e.Tag = fl.Type + ":" + fl.Default
+			fl.Default = c03DefaultNeighbour(fl.Type, fl.Default)
 			return fieldExp([]string{"FIELD_SAME_DEFAULT"}, m, fl)
 		})
 	c03Reg("field-default-add", []string{"FIELD_SAME_DEFAULT"}, fieldSites(func(f c03Field) bool { return canDefault(f) && f.F.Default == "" }),
